@@ -162,7 +162,11 @@ PAYLOADS = ["'+__e2p_canary__()+'", '"+__e2p_canary__()+"', "\\'+__e2p_canary__(
             "' if __e2p_canary__() else '", "');__e2p_canary__();('", "__e2p_canary__()", "x\\", "\\", "'", "a'b\"c", "}}{{", "{titles}", "{functions}",
             "' + str(self._arguments) + '", "*'+__e2p_canary__()+'*", "?'+__e2p_canary__()+'?", ">'+__e2p_canary__()+'", "__import__('os').getcwd()",
             # runs of quotes that would end a triple-quoted text (a docstring, a comment block) and continue as code
-            'a""";__e2p_canary__();"""b', "a''';__e2p_canary__();'''b", '"""', '"""+__e2p_canary__()+"""', 'x\n    __e2p_canary__() #', '#\n__e2p_canary__()']
+            'a""";__e2p_canary__();"""b', "a''';__e2p_canary__();'''b", '"""', '"""+__e2p_canary__()+"""', 'x\n    __e2p_canary__() #', '#\n__e2p_canary__()',
+            # compatibility characters (full-width quotation mark, brackets and low lines, superscripts, a no-break space): a text is kept as it
+            # is written - it is not folded to the ASCII characters that would end the literal or spell a call
+            'x\uff02&__e2p_canary__()&\uff02y', '\uff02+__e2p_canary__()+\uff02', '\uff3f\uff3fimport\uff3f\uff3f\uff08\uff07os\uff07\uff09', 'm\u00b2 \u2116 a\u00a0b',
+            '\uff07+__e2p_canary__()+\uff07']
 
 
 def to_events(cases, results):
